@@ -192,19 +192,23 @@ func familyMemDeps(maxDist int, full bool) []Skeleton {
 					return append(l, lines...)
 				}
 				// store -> load
-				l := base(sz.st + " t0, 8(zero)")
+				st0, st1 := sz.st+" t0, 8(zero)", sz.st+" t1, 8(zero)"
+				if sz.st == "sh" {
+					st0, st1 = "sh t0, 8, zero", "sh t1, 8, zero" // the assembler's syntax for sh
+				}
+				l := base(st0)
 				l = append(l, fillers(d-1)...)
 				l = append(l, sz.ld+" t3, 8(zero)", "ret")
 				out = append(out, Skeleton{ID: fmt.Sprintf("st-ld:%s:%s:d%d", sz.st, w, d), Prog: asm(l...)})
 				// load -> store (the load must see the old bytes)
 				l = base(sz.ld + " t3, 8(zero)")
 				l = append(l, fillers(d-1)...)
-				l = append(l, sz.st+" t0, 8(zero)", "ret")
+				l = append(l, st0, "ret")
 				out = append(out, Skeleton{ID: fmt.Sprintf("ld-st:%s:%s:d%d", sz.st, w, d), Prog: asm(l...)})
 				// store -> store (the later one stays)
-				l = base(sz.st + " t0, 8(zero)")
+				l = base(st0)
 				l = append(l, fillers(d-1)...)
-				l = append(l, sz.st+" t1, 8(zero)", "ret")
+				l = append(l, st1, "ret")
 				out = append(out, Skeleton{ID: fmt.Sprintf("st-st:%s:%s:d%d", sz.st, w, d), Prog: asm(l...)})
 			}
 			w := "cold"
@@ -384,7 +388,7 @@ func familyCacheShort() []Skeleton {
 	out = append(out, Skeleton{ID: "cache:overlap:40-then-8", Prog: asm("lw t3, 40(zero)", "sw t0, 44(zero)", "lw t4, 8(zero)", "sw t1, 40(zero)", "lw t5, 44(zero)", "lw t6, 40(zero)", "ret")})
 	out = append(out, Skeleton{ID: "cache:overlap:store-both", Prog: asm("lw t3, 32(zero)", "lw t4, 0(zero)", "sw t0, 32(zero)", "sw t1, 36(zero)", "lw t5, 32(zero)", "lw t6, 36(zero)", "ret")})
 	// sub-word traffic
-	out = append(out, Skeleton{ID: "cache:subword", Prog: asm("lb t3, 9(zero)", "sb t0, 10(zero)", "lh t4, 10(zero)", "sh t1, 8(zero)", "lw t5, 8(zero)", "lb t6, 11(zero)", "ret")})
+	out = append(out, Skeleton{ID: "cache:subword", Prog: asm("lb t3, 9(zero)", "sb t0, 10(zero)", "lh t4, 10(zero)", "sh t1, 8, zero", "lw t5, 8(zero)", "lb t6, 11(zero)", "ret")})
 	// write-miss then read of the neighbouring word, then the written word
 	out = append(out, Skeleton{ID: "cache:write-miss", Prog: asm("sw t0, 72(zero)", "lw t3, 76(zero)", "lw t4, 72(zero)", "sw t1, 76(zero)", "lw t5, 76(zero)", "ret")})
 	// dirty line left in the cache at the end (no reload): must reach memory
@@ -428,7 +432,7 @@ func familyGeneral() []Skeleton {
 		{ID: "gen:call", Prog: asm("jal ra, f", "addi t3, t2, 1", "ret", "f:", "add t2, t0, t1", "jalr zero, ra, 0"), MaxSteps: 16},
 		{ID: "gen:jalr-abs", Prog: asm("jalr t5, s0, 4", "li t2, 1", "li t3, 2", "li t4, 3", "ret"), Init: "s0=8", MaxSteps: 16},
 		{ID: "gen:muldiv", Prog: asm("mul t2, t0, t1", "div t3, t0, t1", "rem t4, t0, t1", "add t5, t3, t4", "ret")},
-		{ID: "gen:subword", Prog: asm("lb t2, 5(zero)", "lh t3, 6(zero)", "sb t0, 65(zero)", "sh t1, 66(zero)", "lw t4, 64(zero)", "ret")},
+		{ID: "gen:subword", Prog: asm("lb t2, 5(zero)", "lh t3, 6(zero)", "sb t0, 65(zero)", "sh t1, 66, zero", "lw t4, 64(zero)", "ret")},
 		{ID: "gen:zero-reg", Prog: asm("add zero, t0, t1", "addi t2, zero, 5", "lw zero, 8(zero)", "sw zero, 64(zero)", "mv t3, zero", "ret")},
 		{ID: "gen:fall-off", Prog: asm("li t0, 5", "addi t1, t0, 1")},
 		{ID: "gen:fall-off-store", Prog: asm("add t2, t0, t1", "sw t2, 64(zero)")},
